@@ -104,6 +104,18 @@ CLAIMS = {
          "delete_raggedarray checked on the implementation here, their model is C16's.",
          "Coq proof over executable models + in-Coq differential evaluation over the full operation matrix",
          "6.C11"),
+ 'C15': ("kernel-checked: Array.copy = asarray on a Darr source whose chunk plan is the GENERATED "
+         "iterindices: for every chunk length and first-axis length (0 included) the copy is related to the "
+         "cast image of the source with the same metadata flag (C15_copy_array); RaggedArray.copy builds, "
+         "subarray by subarray, a state related to the list-of-arrays model, also with no subarrays "
+         "(C15_copy_ragged); archive(): refuses an existing target without overwrite, accepts only xz/gz/bz2, "
+         "never touches the array, and -- PARTIAL: under the Section hypothesis H-tar (tarfile+compression "
+         "round-trip, not proved) -- extraction yields exactly the directory tree. Tie: copies of all types x "
+         "dtype x chunklen x metadata compared with the NumPy cast and with the model in coqc; post-copy "
+         "mutations on either side with byte snapshots of the other; every archive extracted and compared "
+         "byte-for-byte.",
+         "Coq proof over executable models (partial for the tar round trip: Section hypothesis) + in-Coq differential evaluation",
+         "6.C15"),
  'C16': ("kernel-checked over Fs.v (tree with files, directories, symbolic links): delete_array / "
          "delete_raggedarray keep every entry that is not one of Darr's own file names directly in the "
          "directory exactly as it was (bytes, link targets, at any depth) and, when such an entry is "
